@@ -962,6 +962,8 @@ def rec_shapes():
   S['ring3_through_functor'] = (list(S['ring3'][0]) + [R('E2', y, x, body=(E(x, y),)), lang.Functor('M', 'P', (('E', 'E2'),))], ['P', 'M'], 'set', 'lin')
   S['tc_one_rule_base_first'] = ([D('T', x, y, body=(('or', ((E(x, y),), (Lit('T', x, z), E(z, y)))),))], ['T'], 'set', 'lin')
   S['tc_one_rule_base_last'] = ([D('T', x, y, body=(('or', ((Lit('T', x, z), E(z, y)), (E(x, y),))),))], ['T'], 'set', 'lin')
+  S['tc_one_rule_bag_base_first'] = ([R('T', x, y, body=(('or', ((E(x, y),), (Lit('T', x, z), E(z, y)))),))], ['T'], 'bag', 'lin')
+  S['tc_one_rule_bag_base_last'] = ([R('T', x, y, body=(('or', ((Lit('T', x, z), E(z, y)), (E(x, y),))),))], ['T'], 'bag', 'lin')
   S['consumer_of_recursive'] = ([D('T', x, y, body=(E(x, y),)), D('T', x, z, body=(E(x, y), Lit('T', y, z))), R('Cnt', x, Aggr('Count', y), body=(Lit('T', x, y),), distinct=True),
                                  R('Neg', x, body=(E(x, y), Not(Lit('T', y, x))))], ['Cnt', 'Neg'], 'agg', 'lin')
   S['tc_left_bag'] = ([R('T', x, y, body=(E(x, y),)), R('T', x, z, body=(Lit('T', x, y), E(y, z)))], ['T'], 'bag', 'lin')
@@ -1001,6 +1003,9 @@ def chain_graphs(depth):
   return out
 
 
+BAG_TC = ('tc_bag', 'tc_left_bag', 'tc_one_rule_bag_base_first', 'tc_one_rule_bag_base_last')
+
+
 def c03_cases(thorough):
   S = rec_shapes()
   G3 = graphs3()
@@ -1011,7 +1016,7 @@ def c03_cases(thorough):
     rec_preds = sorted({r.pred for r in rules if isinstance(r, Rule)})
     for depth in depths:
       d = 8 if depth is None else depth
-      if kind == 'bag' and name in ('tc_bag', 'tc_left_bag') and d > 3: continue     # path counts explode on cyclic graphs
+      if kind == 'bag' and name in BAG_TC and d > 3: continue     # path counts explode on cyclic graphs
       anns = [None]
       if depth is not None:
         ev = refsem.Evaluator([r for r in rules if isinstance(r, Rule)], {'E': (['col0', 'col1'], [])})
@@ -1027,7 +1032,7 @@ def c03_cases(thorough):
           for p in ann:
             stmts.append(Ann('@Recursive(%s, %d);' % (p, depth)))
             for q in ev.component(p): depths_map[q] = depth
-        graphs = list(G3) if kind != 'bag' or name not in ('tc_bag', 'tc_left_bag') else [g for g in G3 if all(a < b for a, b in g)]
+        graphs = list(G3) if kind != 'bag' or name not in BAG_TC else [g for g in G3 if all(a < b for a, b in g)]
         graphs += chain_graphs(d)
         if name in ('counter_bag', 'counter_set', 'counter_two', 'flat_bag'): graphs = [[]]
         c = Case('REC/' + name, Program(stmts), preds, schema='E', dbs=[{'E': g} for g in graphs], depths=depths_map, info=dict(kind=kind, depth=d, annotated=ann, shape=name))
@@ -1271,9 +1276,11 @@ def c18_cases(thorough):
           'two_readers': ([R('Q1', x, body=(Lit('P', x, y),)), R('Q2', y, body=(Lit('P', x, y),)), R('T', x, y, body=(Lit('Q1', x), Lit('Q2', y)))], ['T'], False),
           'reader_and_direct': ([R('Q1', x, body=(Lit('P', x, y),)), R('T', x, z, body=(Lit('Q1', x), Lit('P', z, y)))], ['T'], False),
           'functor': ([R('F', x, y, body=(Lit('P', x, y),)), R('A2', x, y, body=(Lit('A', y, x),)), Functor('G', 'F', (('A', 'A2'),))], ['G'], False),
+          # one functor application copies TWO ordered / limited predicates (the applicant and the intermediate): both copies keep their annotations
+          'functor_two_annotated': ([R('F', x, y, body=(Lit('P', x, y),), order_by=['col1 desc', 'col0 desc'], limit=1), R('A2', x, y, body=(Lit('A', y, x),)), Functor('G', 'F', (('A', 'A2'),)), R('T', x, y, body=(Lit('G', x, y),))], ['G', 'T', 'F'], False),
         }
         for use, (extra, preds, ordered) in uses.items():
-          if use == 'functor' and (K is None or form == 'denot' and not thorough): continue
+          if use in ('functor', 'functor_two_annotated') and (K is None or form == 'denot' and not thorough): continue
           if use in ('negated', 'join', 'two_readers', 'reader_and_direct') and not thorough and form == 'ann': continue
           c = Case('ORD/' + use, Program(P + extra), preds, dbs=dbs, fact_dbs=[dbs[37]], info=dict(K=K, order=order, form=form, use=use, ordered=ordered))
           c.ol = ol
